@@ -53,7 +53,7 @@ Qed.
 (** * Running one grammar function on a token list *)
 Definition cfuel : nat := 200.
 Definition mk_ts (l : word) (e : nat) : tst := {| tks := l; terr := e; tafter := false |}.
-Definition run_fn (f : nat) (l : word) : tres := texec cfuel grammar_prog (ECall f None) [] (mk_ts l 0).
+Notation run_fn f l := (texec cfuel grammar_prog (ECall f None) [] (mk_ts l 0)) (only parsing).
 
 (** the run returned true having consumed exactly the word: the unread tokens are [rest], no error was recorded *)
 Definition is_done (r : tres) (rest : word) : bool :=
@@ -77,8 +77,44 @@ Proof. reflexivity. Qed.
 Lemma done_any_context f w k rest e : is_done (run_fn f (w ++ [k])) [k] = true ->
   texec cfuel grammar_prog (ECall f None) [] (mk_ts (w ++ k :: rest) e) = TVal (VB true) [] (mk_ts (k :: rest) e).
 Proof.
-  intros H. apply is_done_sound in H. unfold run_fn in H.
-  rewrite <- mk_ts_frame, <- mk_ts_frame1.
-  apply (frame_done grammar_prog rest e cfuel (ECall f None) [] (mk_ts (w ++ [k]) 0) (VB true) [] (mk_ts [k] 0) H).
-  discriminate.
+  intros H. apply is_done_sound in H.
+  assert (Hne : tks (mk_ts [k] 0) <> []) by discriminate.
+  pose proof (frame_done grammar_prog rest e cfuel (ECall f None) [] (mk_ts (w ++ [k]) 0) (VB true) [] (mk_ts [k] 0) H Hne) as F.
+  rewrite mk_ts_frame in F. exact F.
+Qed.
+
+(** * Finite-language nonterminals *)
+Definition efuel : nat := 14.
+(** follower tokens after which EVERY word of the rule is consumed exactly (computed, not guessed) *)
+Definition fol_ok (f : nat) (ws : list word) (k : TokenKind) : bool :=
+  forallb (fun w => is_done (run_fn f (w ++ [k])) [k]) ws.
+Definition followers (G : grammar) (n f : nat) : list TokenKind :=
+  match enum G efuel (RSym (DNT n)) with
+  | Some ws => filter (fol_ok f ws) all_token_kinds
+  | None => []
+  end.
+
+Theorem fin_complete_tok G n f w k rest e :
+  derives G n w -> In k (followers G n f) ->
+  texec cfuel grammar_prog (ECall f None) [] (mk_ts (w ++ k :: rest) e) = TVal (VB true) [] (mk_ts (k :: rest) e).
+Proof.
+  unfold followers. intros Hd Hk. destruct (enum G efuel (RSym (DNT n))) as [ws|] eqn:E; [|destruct Hk].
+  apply filter_In in Hk as [_ Hk]. unfold fol_ok in Hk. rewrite forallb_forall in Hk.
+  apply done_any_context. apply Hk. eapply enum_complete; eauto.
+Qed.
+
+(** the same for the full parser model: from any state whose upcoming tokens are  w ++ k :: rest  the function either
+    panics (excluded by C02) or returns true in a state whose upcoming tokens are  k :: rest, with no new error *)
+Theorem fin_complete_model G n f w k rest s :
+  derives G n w -> In k (followers G n f) -> Toks s (w ++ k :: rest) -> after_err s = false ->
+  match gexec cfuel grammar_prog (ECall f None) [] s with
+  | RPanic => True
+  | RVal v _ s' => v = VB true /\ Toks s' (k :: rest) /\ nerr s' = nerr s /\ after_err s' = false
+  | _ => False
+  end.
+Proof.
+  intros Hd Hk HT Ha.
+  pose proof (fin_complete_tok G n f w k rest (nerr s) Hd Hk) as Ht.
+  assert (R0 : TR s (mk_ts (w ++ k :: rest) (nerr s))) by (repeat split; auto).
+  exact (refine_done grammar_prog cfuel (ECall f None) s (mk_ts (w ++ k :: rest) (nerr s)) (mk_ts (k :: rest) (nerr s)) R0 Ht).
 Qed.
